@@ -84,3 +84,27 @@ package query
 //@   opt precall=off
 //@   callsite somePath explored_set_of_the_destination [C23]: in(target2, s.memo) && arg_seen == s.memo[target2] && \
 //@      arg_target1 == s.graph.TargetOrDie(target1) && arg_target2 == s.graph.TargetOrDie(target2)
+
+// isSameTarget (the zero-cost edges of `plz query revdeps --level`): two targets are the same rule when they
+// are identical or when BOTH, each replaced by its parent if it is hidden, name the same (existing) target.
+//@ func isSameTarget
+//@   requires graph != nil && lhs != nil && rhs != nil
+//@   modifies nothing
+//@   ensures exact [C23]: result == (lhs == rhs || \
+//@      (ite(lhs.Label.IsHidden(), lhs.Parent(graph), lhs) == ite(rhs.Label.IsHidden(), rhs.Parent(graph), rhs) && \
+//@       ite(lhs.Label.IsHidden(), lhs.Parent(graph), lhs) != nil))
+//
+// sourceHash (query): every tool that is not a label of this repository contributes its resolved paths
+// (ghost set of the tools passed to toolPathHash) — skipping one in-repo tool does not end the loop.
+//@ assume func toolPathHash
+//@   modifies nothing
+//@ func sourceHash
+//@   requires state != nil && target != nil
+//@   opt nopanic=off
+//@   opt inline=off
+//@   opt precall=off
+//@   callsite toolPathHash collect T core.BuildInput: arg_tool
+//@   invariant "range target.AllTools()" every_outside_tool_is_hashed [C24]: forall k int :: 0 <= k && k < idx ==> \
+//@      (!second(target.AllTools()[k].Label()) ==> collected(T, target.AllTools()[k]))
+//@   ensures every_outside_tool_is_hashed [C24]: result1 == nil && (forall k int :: 0 <= k && k < len(target.AllTools()) ==> \
+//@      (!second(target.AllTools()[k].Label()) ==> collected(T, target.AllTools()[k])))
